@@ -90,6 +90,29 @@ int rs_rfc_output(const rsig *s, unsigned char out[RH_MAX_IMPRINT], size_t *out_
 	return 0;
 }
 
+/* Path of second t in the calendar tree published at P, with sibling values taken from a virtual
+ * calendar: the value of a subtree is a deterministic function of the time range it covers, so two
+ * paths through the same calendar (e.g. before and after extending) agree on shared siblings. */
+int rs_calendar_links(uint64_t t, uint64_t P, rlink *out, int max) {
+	rlink tmp[130];
+	int n = 0, i;
+	uint64_t r = P, base = 0;
+	if (t > P) return -1;
+	while (r > 0) {
+		uint64_t h = 1, lo, hi;
+		int is_left;
+		while ((r >> 1) >= h) h <<= 1;
+		if (t < h) { is_left = 1; lo = base + h; hi = base + r; r = h - 1; }
+		else { is_left = 0; lo = base; hi = base + h - 1; t -= h; r -= h; base += h; }
+		if (n >= 129) return -1;
+		ref_link_imprint(&tmp[n], is_left, RH_SHA256, (unsigned)(vf_fnv(&lo, sizeof lo, vf_fnv(&hi, sizeof hi, 0)) & 0xffffffffu), 0);
+		n++;
+	}
+	if (n > max) return -1;
+	for (i = 0; i < n; i++) out[i] = tmp[n - 1 - i];
+	return n;
+}
+
 int rs_fix(rsig *s, unsigned what) {
 	int i, rc = 0;
 	if ((what & RS_FIX_RFC) && s->has_rfc) {
@@ -109,12 +132,9 @@ int rs_fix(rsig *s, unsigned what) {
 		if (s->has_rfc) { memcpy(s->rfc.index, s->ch[0].index, sizeof s->rfc.index); s->rfc.nindex = s->ch[0].nindex; }
 	}
 	if ((what & RS_FIX_CALSHAPE) && s->has_cal) {
-		int dirs[130], n = ref_cal_shape(s->cal_has_aggr ? s->cal_aggr_time : s->cal_pub_time, s->cal_pub_time, dirs);
-		if (n < 0 || n > RS_MAXCAL) rc = -1;
-		else {
-			for (i = 0; i < n; i++) ref_link_imprint(&s->cal[i], dirs[i], RH_SHA256, 1000u + (unsigned)i, 0);
-			s->ncal = n;
-		}
+		int n = rs_calendar_links(s->cal_has_aggr ? s->cal_aggr_time : s->cal_pub_time, s->cal_pub_time, s->cal, RS_MAXCAL);
+		if (n < 0) rc = -1;
+		else s->ncal = n;
 	}
 	if ((what & RS_FIX_CAL_IN) && s->has_cal) {
 		unsigned char o[RH_MAX_IMPRINT]; size_t ol = 0;
